@@ -152,13 +152,26 @@ func (x *XObject) Count() int {
 // Get retrieves the named property
 func (x *XObject) Get(key string) (XValue, bool) {
 	key = strings.ToLower(key)
-	for p, v := range x.properties() {
-		if strings.ToLower(p) == key {
-			return v, true
-		}
+	props := x.properties()
+
+	// a property with exactly this (lowercase) name wins
+	if v, found := props[key]; found {
+		return v, true
 	}
 
-	return nil, false
+	// otherwise match ignoring case, and if several properties differ only by case, take the first in sorted
+	// order so that the result doesn't depend on map iteration order
+	var matches []string
+	for p := range props {
+		if strings.ToLower(p) == key {
+			matches = append(matches, p)
+		}
+	}
+	if len(matches) == 0 {
+		return nil, false
+	}
+	sort.Strings(matches)
+	return props[matches[0]], true
 }
 
 // Properties returns the sorted property names of this object
